@@ -29,7 +29,7 @@ EXPLANATION = (
     "the rejection path of parse_selection.__call__ is a CFG dominance check.")
 NOT_DECIDED = ["pyparsing's own matching behaviour (packrat cache, Keyword boundaries)", "evaluation of the compiled lambda on a topology (run-time)"]
 ASSUMPTIONS = ["pyparsing.infixNotation gives earlier levels higher precedence and treats a MatchFirst of literals as one operator level"]
-FLOORS = {"C12-R1": 30, "C12-R2": 19, "C12-R3": 10, "C12-R4": 4, "C12-R5": 4, "C12-R6": 7, "C12-R7": 3, "C12-R8": 8}
+FLOORS = {"C12-R1": 30, "C12-R2": 19, "C12-R3": 10, "C12-R4": 4, "C12-R5": 4, "C12-R6": 7, "C12-R7": 3, "C12-R8": 6}
 
 SEL = "mdtraj/core/selection.py"
 TOP = "mdtraj/core/topology.py"
@@ -353,30 +353,8 @@ def r8(ctx):
                          % ", ".join(sorted({c.func.attr for c in edits} | ({"slice"} if slices else set()))))
         else:
             ctx.undecided("C12-R8", r, SEL, "Literal.ast", "literal parsed by ast.parse(token, mode='eval')", "unrecognised literal conversion `%s`" % s[:80])
-    # (b) the literal checks of BinaryInfixOperand range over every operand of a chain
-    fn = ctx.py.func(SEL, "BinaryInfixOperand.__init__")
-    comp = [n for n in walk_no_nested(fn) if isinstance(n, ast.Assign) and dotted(n.targets[0]) == "self.comparators"]
-    ok = bool(comp) and src(comp[0].value).replace(" ", "") == "tokens[::2]"
-    ctx.decide(ok, "C12-R8", comp[0] if comp else fn, SEL, "BinaryInfixOperand.__init__", "operands = tokens[::2] (all terms of a same-level chain)", "",
-               "the operands of a chain `a op b op c ...` are taken as %s" % (src(comp[0].value) if comp else None))
-    for needle, quant in (("Cannot use literals as truth", "any"), ("Cannot compare literals", "all")):
-        guard = None
-        for n in walk_no_nested(fn):
-            if isinstance(n, ast.If) and any(isinstance(s2, ast.Raise) and needle in src(s2) for s2 in n.body):
-                guard = n
-        if guard is None:
-            ctx.violated("C12-R8", fn, SEL, "BinaryInfixOperand.__init__", "check `%s` over all operands" % needle, "the check is gone")
-            continue
-        t = guard.test
-        ok = isinstance(t, ast.Call) and call_name(t) == quant and t.args and isinstance(t.args[0], (ast.GeneratorExp, ast.ListComp)) and \
-            src(t.args[0].generators[0].iter) == "self.comparators" and "isinstance(" in src(t.args[0].elt) and "Literal" in src(t.args[0].elt)
-        ctx.decide(ok, "C12-R8", guard, SEL, "BinaryInfixOperand.__init__", "check `%s` is %s(... for c in self.comparators)" % (needle, quant), "",
-                   "the check `%s` is `%s`: it does not look at every operand of a chain of three or more terms, so `protein and name CA and CB` is accepted with a bare literal as truth value"
-                   % (needle, src(t)[:90]))
-    ast_fn = ctx.py.func(SEL, "BinaryInfixOperand.ast")
-    s = src(ast_fn).replace(" ", "")
-    ok = "values=[e.ast()foreinself.comparators]" in s and "left=self.comparators[0].ast()" in s and "comparators=[e.ast()foreinself.comparators[1:]]" in s
-    ctx.decide(ok, "C12-R8", ast_fn, SEL, "BinaryInfixOperand.ast", "every operand of a chain enters the AST", "", "some operands of a chain are dropped from the generated AST")
+    # (b) BinaryInfixOperand evaluated on model operand chains (sa/tensym.py): which operands are kept, which chains are refused, what enters the AST
+    _r8_infix_by_evaluation(ctx)
     # (b2) bare names become string constants; only the two marked AST nodes (the atom and the re module) survive, by marker, not by spelling
     vn = ctx.py.func(SEL, "_RewriteNames.visit_Name")
     keep = [n for n in walk_no_nested(vn) if isinstance(n, ast.Return) and isinstance(n.value, ast.Name) and n.value.id == "node"]
@@ -453,3 +431,79 @@ def memo_coherence(ctx, rule):
             ctx.decide(resets, rule, m, TOP, "Topology." + name, "memo %s reset when %s change" % (f, sorted(touches)), "",
                        "Topology.%s changes %s but does not reset the memo `%s` filled by %s: an attribute served from it (e.g. through a selection keyword) describes the topology before the change"
                        % (name, sorted(touches), f, info["filled_in"]))
+
+
+def _r8_infix_by_evaluation(ctx):
+    """BinaryInfixOperand on chains of three operands: every operand of `a op b op c` is kept, a boolean chain with any bare literal and a
+    comparison chain of literals only are refused, and the generated node holds all operands in order (BoolOp.values, or Compare.left +
+    comparators)."""
+    from ..tensym import TenSym, Obj, Unsupported as TUnsupported
+    init = ctx.py.func(SEL, "BinaryInfixOperand.__init__")
+    astf = ctx.py.func(SEL, "BinaryInfixOperand.ast")
+    BOOL, CMP = Obj(_isa=("boolop",), tag="and"), Obj(_isa=("cmpop",), tag="<")
+
+    def operand(k, literal):
+        o = Obj(_isa=("Literal",) if literal else ("SelectionKeyword",), tag="t%d" % k)
+        o.ast = (lambda t: (lambda: t))("ast(t%d)" % k)
+        return o
+
+    def run_init(optok, lits):
+        ops = [operand(k, l) for k, l in enumerate(lits)]
+        toks = []
+        for k, o in enumerate(ops):
+            if k:
+                toks.append(optok)
+            toks.append(o)
+        me = Obj(keyword_aliases={"and": BOOL, "<": CMP}, _lenient=True)
+        ev = TenSym({"__g_x": 0})
+        try:
+            ev.run_fn(init, self=me, tokens=[toks])
+        except TUnsupported as e:
+            if "path raises" in str(e):
+                return "refused", me, ops
+            raise
+        return "accepted", me, ops
+    cases = [("and", (False, False, False), "accepted"), ("and", (False, False, True), "refused"), ("and", (True, False, False), "refused"),
+             ("<", (True, True, True), "refused"), ("<", (False, True, True), "accepted"), ("<", (True, True, False), "accepted")]
+    try:
+        pr = []
+        for optok, lits, want in cases:
+            res, me, ops = run_init(optok, lits)
+            if res != want:
+                pr.append("`%s` chain with literals at %s is %s (documented: %s)" % (optok, [k for k, l in enumerate(lits) if l], res, want))
+            elif res == "accepted":
+                if getattr(me, "comparators", None) is None or list(me.comparators) != ops or getattr(me, "op_token", None) != optok:
+                    pr.append("operands kept for a three-term `%s` chain are %s" % (optok, [getattr(o, "tag", o) for o in (getattr(me, "comparators", None) or [])]))
+        ctx.decide(not pr, "C12-R8", init, SEL, "BinaryInfixOperand.__init__", "three-term chains: all operands kept; boolean chains with any literal and comparison chains of literals only are refused (6 cases)", "", "; ".join(pr)[:400])
+    except TUnsupported as e:
+        ctx.undecided("C12-R8", init, SEL, "BinaryInfixOperand.__init__", "operand chains", "not evaluable: %s" % e)
+    try:
+        pr = []
+        for optok, opobj in (("and", BOOL), ("<", CMP)):
+            ops = [operand(k, False) for k in range(3)]
+            me = Obj(keyword_aliases={"and": BOOL, "<": CMP}, op_token=optok, comparators=ops)
+            made = []
+
+            def node(kind):
+                def f(ev_, call):
+                    kw = {k.arg: ev_.ex(k.value) for k in call.keywords}
+                    made.append((kind, kw))
+                    return Obj(tag=kind, **kw)
+                return f
+            ev = TenSym({}, models={"ast.BoolOp": node("BoolOp"), "ast.Compare": node("Compare")})
+            got = ev.run_fn(astf, self=me)
+            if len(made) != 1 or not isinstance(got, Obj):
+                pr.append("`%s`: %d nodes built" % (optok, len(made)))
+                continue
+            kind, kw = made[0]
+            allops = ["ast(t0)", "ast(t1)", "ast(t2)"]
+            if optok == "and":
+                if kind != "BoolOp" or list(kw.get("values") or []) != allops or kw.get("op") is not BOOL:
+                    pr.append("boolean chain becomes %s(%s)" % (kind, {k: v for k, v in kw.items() if k != "op"}))
+            else:
+                seq = [kw.get("left")] + list(kw.get("comparators") or [])
+                if kind != "Compare" or seq != allops or list(kw.get("ops") or []) != [CMP]:
+                    pr.append("comparison chain becomes %s(left=%s, comparators=%s, %d ops)" % (kind, kw.get("left"), kw.get("comparators"), len(kw.get("ops") or [])))
+        ctx.decide(not pr, "C12-R8", astf, SEL, "BinaryInfixOperand.ast", "every operand of a chain enters the AST, in order (BoolOp.values / Compare.left + comparators)", "", "; ".join(pr)[:400])
+    except TUnsupported as e:
+        ctx.undecided("C12-R8", astf, SEL, "BinaryInfixOperand.ast", "generated node", "not evaluable: %s" % e)
